@@ -49,11 +49,9 @@ structure WFd (dt : Data) (s : Store) : Prop where
   /-- the virtual root's vector is current whenever there is a clone -/
   rootOK : s.forest.isNil = false → s.rootR = recompRoot dt s.forest
 
-/-- Payload-order normalisation: the payload's data-point *set* (a Python `set`, a list in the model)
-is listed in the order of the clone's `_data` entry — the order in which `from_dict` re-adds it with
-`add_data_point_list`.  Every edit of the model appends to / erases from both lists alike. -/
-def Aligned (s : Store) : Prop := ∀ n ∈ s.forest.recs, n.dps = s.dataOf n.name
-
+/-- executable form of the payload-order normalisation `Aligned` (`Proofs/StoreInv.lean`): the payload's
+data-point set is listed in the order of the clone's `_data` entry, the order in which `from_dict`
+re-adds it with `add_data_point_list` -/
 def alignedB (s : Store) : Bool := s.forest.recs.all fun n => n.dps == s.dataOf n.name
 
 def fullB (s : Store) : Bool := s.forest.recs.all fun n => alHas s.data n.name
